@@ -97,7 +97,7 @@ theorem function_tail {N : NumOps} {call : CallFn N} {ρ : ExtOracle N} {k : Nat
         | [], _ => errS "function statement without a name" (σ'.allocClosure ⟨F', env'.locals, []⟩).2) := by
   intro hroot
   have ha := hs.allocClosure (c := ⟨F, env.locals, []⟩) (c' := ⟨F', env'.locals, []⟩) ⟨.nil, D, hF, he.loc⟩
-  have hle := le_extF (β := β) σ.closures.length σ'.closures.length
+  have hle := hs.le_extF
   have he1 := he.mono hle
   have hid : VRel (N := N) (extF β σ.closures.length σ'.closures.length)
       (.fn (σ.allocClosure ⟨F, env.locals, []⟩).1) (.fn (σ'.allocClosure ⟨F', env'.locals, []⟩).1) := by
@@ -175,12 +175,12 @@ theorem nfor_tail {N : NumOps} {call : CallFn N} {ρ : ExtOracle N} {k : Nat} {e
     apply forLoop_rel
     · intro β2 h2 i s s' h
       have hal := h.allocCell (v := .num i) (v' := .num i) rfl
-      refine RRel.mono (le_extC s.cells.length s'.cells.length) ?_
+      refine RRel.mono h.le_extC ?_
       rw [hn]
       have he3 : EnvOK (extC β2 s.cells.length s'.cells.length) D
           { env with locals := (n'.name, (s.allocCell (.num i)).1) :: env.locals }
           { env' with locals := (n'.name, (s'.allocCell (.num i)).1) :: env'.locals } :=
-        ⟨((he.mono h2).mono (le_extC _ _)).va, ((he.mono h2).loc.mono (le_extC _ _)).cons _ (.inr ⟨rfl, rfl⟩)⟩
+        ⟨((he.mono h2).mono h.le_extC).va, ((he.mono h2).loc.mono h.le_extC).cons _ (.inr ⟨rfl, rfl⟩)⟩
       exact (ihbody.2 N call ρ k _ _ _ _ _ hp hal he3).mapA fun _ _ _ _ ha => ha.shape
     · exact h
   · exact RRel.errS h
@@ -236,14 +236,13 @@ theorem SoundS.localFn {kind kind' name f f'} (hf : Q D f f') :
   intro N call ρ k env env' σ σ' β hp hs he
   simp only [execS]
   have h1 := hs.allocCell (v := .nil) (v' := .nil) trivial
-  have hle1 := le_extC (β := β) σ.cells.length σ'.cells.length
+  have hle1 := hs.le_extC
   have hnew : (extC β σ.cells.length σ'.cells.length).c (σ.allocCell .nil).1 (σ'.allocCell .nil).1 := .inr ⟨rfl, rfl⟩
   have he1 : EnvRel (extC β σ.cells.length σ'.cells.length) D ((name, (σ.allocCell .nil).1) :: env.locals)
       ((name, (σ'.allocCell .nil).1) :: env'.locals) := (he.loc.mono hle1).cons _ hnew
   have h2 := h1.allocClosure (c := ⟨f, (name, (σ.allocCell .nil).1) :: env.locals, []⟩)
     (c' := ⟨f', (name, (σ'.allocCell .nil).1) :: env'.locals, []⟩) ⟨.nil, D, hf, he1⟩
-  have hle2 := le_extF (β := extC β σ.cells.length σ'.cells.length) (σ.allocCell Val.nil).2.closures.length
-    (σ'.allocCell Val.nil).2.closures.length
+  have hle2 := h1.le_extF
   refine RRel.mono (Inj.le_trans hle1 hle2) (RRel.ok (A := ACtlS D) ⟨(he.mono (Inj.le_trans hle1 hle2)).va, he1.mono hle2⟩ ?_)
   exact h2.setCell (hle2.c _ _ hnew) (show (extF _ _ _).f _ _ from .inr ⟨rfl, rfl⟩)
 
